@@ -146,13 +146,107 @@ const SHORT_BODIES: &[&[u8]] = &[
     &[0xFF, 0xFF, 0xFF, 0xFF, 0xFF, 0xFF, 0xFF, 0xFF],
 ];
 
+
+// ---------------------------------------------------------------------------------------
+// nothing observable about the caller-held poll state may depend on memory the transport never delivered
+
+/// Leaves a freed heap chunk of `len` bytes filled with `pattern` at the head of this thread's free list, so that
+/// the next allocation of that size is likely to get it back un-zeroed (glibc's per-thread cache is LIFO). If the
+/// allocator does not reuse it the probe below is merely blind, never wrong.
+#[inline(never)]
+fn poison_free_chunk(len: usize, pattern: u8) {
+    let v: Vec<u8> = vec![pattern; len];
+    std::hint::black_box(&v);
+    drop(v);
+}
+
+/// decodes the first `k` bytes of `data` with the poll decoder, stops at the Pending that follows, and renders the
+/// caller-held state (and a clone of it) with `{:?}`
+fn observed_state<F: Family>(data: &[u8], k: usize, hl: usize, rl: usize, pattern: u8) -> String {
+    use std::future::Future;
+    let mut steps: Vec<Step> = Vec::new();
+    for _ in 0..k.min(hl) {
+        steps.push(Step::Chunk(1));
+    }
+    if k > hl {
+        steps.push(Step::Chunk(k - hl));
+    }
+    steps.push(Step::Pending);
+    let mut reader = crate::sio::ScriptedReader::new(data, &steps);
+    let mut state: mqtt_proto::GenericPollPacketState<F::Header> = Default::default();
+    let waker = crate::sio::noop_waker();
+    let mut cx = std::task::Context::from_waker(&waker);
+    poison_free_chunk(rl, pattern);
+    let r = {
+        let mut fut = mqtt_proto::GenericPollPacket::new(&mut state, &mut reader);
+        std::pin::Pin::new(&mut fut).poll(&mut cx)
+    };
+    let outcome = match r {
+        std::task::Poll::Pending => "pending",
+        std::task::Poll::Ready(Ok(_)) => "ready-ok",
+        std::task::Poll::Ready(Err(_)) => "ready-err",
+    };
+    let cl = state.clone();
+    format!("{} | {:?} | clone {:?}", outcome, state, cl)
+}
+
+/// nums = [family, stream index]: every cut position of one of the short streams (and of a few longer ones)
+fn case_state_observation(input: &Input, ctx: &mut Ctx) -> CaseResult {
+    let n = input.nums();
+    let v5 = n[0] == 1;
+    let mut streams: Vec<Vec<u8>> = if v5 { crate::checks::c05::short_streams::<V5>() } else { crate::checks::c05::short_streams::<V3>() };
+    for rl in [40usize, 100, 200, 600, 1_000] {
+        let p = if v5 { V5::encode(&V5::publish_with_payload(vec![0x42; rl])) } else { V3::encode(&V3::publish_with_payload(vec![0x42; rl])) };
+        if let Ok(b) = p {
+            streams.push(b.as_ref().to_vec());
+        }
+    }
+    let data = match streams.get(n[1] as usize) {
+        Some(d) => d,
+        None => return Ok(()),
+    };
+    let (hl, rl) = match crate::refdec::frame_bounds(data) {
+        Ok(x) => x,
+        Err(_) => return Ok(()),
+    };
+    if rl == 0 || rl > 4_096 {
+        return Ok(());
+    }
+    let mut probes = 0u64;
+    for k in hl..(hl + rl).min(data.len()) {
+        let (a, b) = if v5 { (observed_state::<V5>(data, k, hl, rl, 0xAA), observed_state::<V5>(data, k, hl, rl, 0x55)) } else { (observed_state::<V3>(data, k, hl, rl, 0xAA), observed_state::<V3>(data, k, hl, rl, 0x55)) };
+        if a != b {
+            let at = a.bytes().zip(b.bytes()).position(|(x, y)| x != y).unwrap_or(0);
+            let from = at.saturating_sub(60);
+            return Err(crate::run::Violation::new(format!(
+                "after {} of the {} body bytes of {} were delivered, the {{:?}} rendering of the caller-held poll state depends on memory the transport never wrote (heap chunk pre-filled with 0xAA vs 0x55): ..{}.. vs ..{}..",
+                k - hl,
+                rl,
+                hex_short(data, 24),
+                &a[from..(at + 40).min(a.len())],
+                &b[from..(at + 40).min(b.len())]
+            )));
+        }
+        probes += 1;
+    }
+    ctx.more_evals(probes.saturating_sub(1));
+    ctx.count_distinct(probes);
+    ctx.label("state-observed-mid-body");
+    if n[1] == 0 {
+        ctx.sample(|| format!("{} stream {}: state rendered with {{:?}} after every partial body delivery, heap pre-filled with two patterns", if v5 { "v5" } else { "v3" }, hex_short(data, 16)));
+    }
+    Ok(())
+}
+
+pub const SUB_OBS: Sub = Sub { name: "c03.state-observation", f: case_state_observation };
+
 pub const SUB_TAPE: Sub = Sub { name: "c03.corrupted", f: case_tape };
 pub const SUB_BYTES: Sub = Sub { name: "c03.bytes", f: case_bytes };
 pub const SUB_BLOCK: Sub = Sub { name: "c03.short-strings", f: case_block };
 pub const SUB_HB: Sub = Sub { name: "c03.header-body", f: case_header_body };
 
 pub fn subs() -> Vec<Sub> {
-    vec![SUB_TAPE, SUB_BYTES, SUB_BLOCK, SUB_HB]
+    vec![SUB_TAPE, SUB_BYTES, SUB_BLOCK, SUB_HB, SUB_OBS]
 }
 
 /// maximal declared lengths and other hand-written vectors
@@ -182,6 +276,12 @@ pub fn vectors() -> Vec<Input> {
 
 pub fn run(env: &mut Env) -> RunResult {
     env.park = true;
+    {
+        let n3 = crate::checks::c05::short_streams::<V3>().len() as u64 + 5;
+        let n5 = crate::checks::c05::short_streams::<V5>().len() as u64 + 5;
+        env.run_enum(SUB_OBS, n3 + n5, false, move |i| if i < n3 { Input::Nums(vec![0, i]) } else { Input::Nums(vec![1, i - n3]) })?;
+        env.require("c03.state-observation", "state-observed-mid-body");
+    }
     env.run_inputs(SUB_BYTES, &vectors())?;
     let mut v: Vec<Input> = crate::checks::c04::vectors(crate::model::Fam::V3);
     v.extend(crate::checks::c04::vectors(crate::model::Fam::V5));
